@@ -42,7 +42,7 @@ def run_exe(exe, timeout=120):
 def _probe_once(tmp, units, cc, flags):
     parts = [PRELUDE]
     for k, (uid, decls, stmts) in enumerate(units):
-        parts.append(decls)
+        parts.append(decls + '\n')
         parts.append('static void u_%d(void) {\n%s\n}\n' % (k, stmts))
     parts.append('int main(void) {\n')
     for k, (uid, decls, stmts) in enumerate(units):
